@@ -125,6 +125,11 @@ def classes_for(us, scales):
     c = [f"eop:{cfg()}", gd.era(us)] + ([] if _CLONE["how"] == "none" else [f"clone:{_CLONE['how']}"])
     if near_midnight(us):
         c.append("near0h")
+    day = gd.us_to_datetime(us)
+    if (day.month, day.day) in ((12, 31), (1, 1)):
+        c.append("turn-of-year")
+        if day.month == 12 and day.year % 4 == 0:
+            c.append("day-366")
     if set(scales) & {"UT1", "TDB"}:
         c.append("inexact-scale")
     return c
@@ -321,7 +326,12 @@ def missing_case(draw, shard, tier):
     if name == "real":
         # a day the tables do not cover: before 1973-01-02, or after the last complete line
         t = tab()
-        if draw(st.booleans()):
+        k = draw(st.integers(0, 5))
+        if k == 0:
+            # both ends of the tables themselves: the first / last tabulated UTC day and their neighbours
+            mjd = draw(st.sampled_from([t.first - 1, t.first, t.first + 1, t.last - 1, t.last, t.last + 1]))
+            S = "UTC"  # (the day that counts is the UTC day: other labels are ambiguous in the 70 s around it)
+        elif k < 3:
             mjd = draw(gd.mixed_int(t.first - 4000, t.first - 2))
         else:
             mjd = draw(gd.mixed_int(t.last + 2, t.last + 4000))
@@ -365,6 +375,25 @@ def check_missing(case):
     policy = case["policy"]
     S = case["S"]
     dt = _dt.datetime(1858, 11, 17) + _dt.timedelta(days=case["mjd"], microseconds=case["tod"])
+    if _CFG["name"] == "real" and S == "UTC" and case["mjd"] in tab().days:
+        # a tabulated day, however close to the end of the tables: real values, whatever the policy, silently
+        from beyond.config import config as _config
+
+        old_policy = _config["eop"].get("missing_policy")
+        _config["eop"]["missing_policy"] = policy
+        try:
+            with _Catch() as c:
+                d = Date(dt, scale="UTC")
+        finally:
+            _config["eop"]["missing_policy"] = old_policy
+        want = tab().day(case["mjd"])
+        for k in FIELDS:
+            if getattr(d.eop, k) != want[k]:
+                raise Violation("table-edge", f"policy '{policy}': Date({dt}) on the tabulated day {case['mjd']} has eop.{k} = "
+                                              f"{getattr(d.eop, k)!r}, table {want[k]!r}")
+        if c.records:
+            raise Violation("table-edge", f"policy '{policy}': Date({dt}) on a tabulated day logged {c.records[0].getMessage()}")
+        return dict(nt=True, cls=[f"policy:{policy}", "eop:real", "table-edge-covered"])
     old = config["eop"].get("missing_policy")
     config["eop"]["missing_policy"] = policy
     try:
@@ -397,7 +426,8 @@ def check_missing(case):
         raise Violation("offset-TDB-TT-bound", f"|TDB-TT| = {rd['TDB'] - rd['TT']} us")
     if abs(rd[S] - gd.datetime_to_us(dt)) > 0:
         raise Violation("constructor-reading", f"Date({dt}, {S}).datetime = {d.datetime}")
-    return dict(nt=True, cls=[f"policy:{policy}", f"eop:{_CFG['name']}"])
+    edge = _CFG["name"] == "real" and abs(case["mjd"] - tab().first) <= 1 or _CFG["name"] == "real" and abs(case["mjd"] - tab().last) <= 1
+    return dict(nt=True, cls=[f"policy:{policy}", f"eop:{_CFG['name']}"] + (["table-edge-uncovered"] if edge else []))
 
 
 # ------------------------------------------------------------------ 6  arithmetic
@@ -409,6 +439,11 @@ UNIFORM = ("TAI", "TT", "GPS", "UTC")
 def arith_case(draw, shard, tier):
     leaps = leap_days()
     us = draw(gd.instants(leaps, lo_mjd=gd.LO_MJD + 85, hi_mjd=gd.HI_MJD - 85))
+    if draw(st.integers(0, 7)) == 0:
+        # shortly before a leap second: the additions below then cross it (in TAI / TT / GPS they must not notice)
+        inside = [m for m in leaps if gd.LO_MJD + 130 < m < gd.HI_MJD - 130]
+        us = gd.push_out_of_leap_windows((draw(st.sampled_from(inside)) - iers.BASE_MJD) * US_DAY
+                                         - draw(gd.uniform_int(200 * US, 35 * US_DAY)), leaps)
     S = draw(st.sampled_from(UNIFORM))
     t1 = draw(gd.timedeltas_us())
     t2 = draw(gd.timedeltas_us())
@@ -454,6 +489,8 @@ def check_arith(case):
     if t1 == 0 and not (d1 == d and hash(d1) == hash(d)):
         raise Violation("add-zero", f"d + 0 != d or hashes differ for {d}")
     crosses = (r[S] // US_DAY) != ((r[S] + t1) // US_DAY)
+    if not gd.leap_free(us + min(0, t1, t2, t1 + t2), us + max(0, t1, t2, t1 + t2), leap_days()):
+        _cl = _cl + ["crosses-leap-second"]
     return dict(nt=True, cls=[f"eop:{cfg()}", f"scale:{S}", gd.era(us)] + _cl + (["crosses-day"] if crosses else []) +
                 (["t<0"] if t1 < 0 else []) + (["|t|>1d"] if abs(t1) > US_DAY else []) + (["|t|<1s"] if abs(t1) < US else []),
                 ratio=worst / 1.0)
@@ -532,6 +569,11 @@ def check_oeh(case):
 def range_case(draw, shard, tier):
     leaps = leap_days()
     us = draw(gd.instants(leaps, lo_mjd=gd.LO_MJD + 45, hi_mjd=gd.HI_MJD - 45))
+    if draw(st.integers(0, 7)) == 0:
+        # a range that spans a leap second (walked in TAI / TT / GPS)
+        inside = [m for m in leaps if gd.LO_MJD + 100 < m < gd.HI_MJD - 100]
+        us = gd.push_out_of_leap_windows((draw(st.sampled_from(inside)) - iers.BASE_MJD) * US_DAY
+                                         + draw(gd.uniform_int(-20 * US_DAY, 20 * US_DAY)), leaps)
     S = draw(st.sampled_from(UNIFORM))
     S2 = draw(st.sampled_from(UNIFORM))
     step = draw(st.sampled_from([1, 1000, US, 60 * US, 3600 * US, US_DAY]) | gd.mixed_int(1, US_DAY))
@@ -624,6 +666,8 @@ def check_range(case):
            "dividing" if span % step == 0 else "non-dividing"]
     if span == 0:
         cls.append("empty-span")
+    if not gd.leap_free(us + min(0, span), us + max(0, span), leap_days()):
+        cls.append("spans-a-leap-second")
     return dict(nt=step < 0 or span % step != 0 or S != S2 or near_midnight(us), cls=cls + _cl)
 
 
@@ -817,6 +861,31 @@ def check_ctor(case):
         "Date": Date(ref),
         "lowercase-scale": Date(dt, scale=S.lower()),
     }
+    from beyond.dates.date import get_scale
+
+    fmt = "%Y-%m-%dT%H:%M:%S.%f"
+    forms.update({
+        "scale-object": Date(dt, scale=get_scale(S)),
+        "strptime": Date.strptime(dt.strftime(fmt), fmt, scale=S),
+        "strptime-scale-object": Date.strptime(dt.strftime(fmt), fmt, scale=get_scale(S)),
+        "fields-keyword": Date(dt.year, dt.month, dt.day, dt.hour, dt.minute, second=dt.second, microsecond=dt.microsecond,
+                               scale=S),
+        "Date-of-clone": Date(gd.clone(ref, "pickle")),
+    })
+    # whole seconds / whole days: the integer spellings
+    whole = dt.replace(microsecond=0)
+    ws = (whole - Date.MJD_T0)
+    pairs = [("day+int-seconds", Date(ws.days, int(ws.seconds), scale=S), Date(whole, scale=S)),
+             ("int-mjd", Date(ws.days, scale=S), Date(whole.replace(hour=0, minute=0, second=0), scale=S)),
+             ("fields-date-only", Date(dt.year, dt.month, dt.day, scale=S), Date(whole.replace(hour=0, minute=0, second=0), scale=S))]
+    for name, x, want in pairs:
+        if str(x.scale) != S or td_us(x - want) != 0 or reading_us(x) != reading_us(want) or not x == want or hash(x) != hash(want):
+            raise Violation("ctor-form", f"Date built from {name} = {x}, from datetime = {want}")
+    # change_scale spelled with the scale object
+    for X in iers.SCALES:
+        a, b = ref.change_scale(get_scale(X)), ref.change_scale(X)
+        if not a == b or reading_us(a) != reading_us(b) or str(a.scale) != X:
+            raise Violation("ctor-change-scale-object", f"{ref}.change_scale(<Scale {X}>) = {a}, with the name: {b}")
     if S == "UTC":
         tz = _dt.timezone(_dt.timedelta(minutes=case["tz_minutes"]))
         forms["tz-aware"] = Date(dt.replace(tzinfo=_dt.timezone.utc).astimezone(tz))
